@@ -713,6 +713,137 @@ def regenerate():
     return res
 
 
+# ------------------------------------------------------------------------------------- G5: request layouts
+class _Layout:
+    """Symbolic collection, in evaluation order, of the typed reads a read_* function performs."""
+
+    def __init__(self, mod_tree, path):
+        self.funcs = {n.name: n for n in mod_tree.body if isinstance(n, ast.FunctionDef)}
+        self.path = path
+        self.table = None
+        self.chunk = None
+
+    def bad(self, node, why):
+        raise Unsupported("%s:%d: layout extraction: %s" % (os.path.relpath(self.path, C.REPO), getattr(node, "lineno", 0), why))
+
+    def ev(self, node, env):
+        """constant-evaluate an offset / flag expression."""
+        if isinstance(node, ast.Constant):
+            return node.value
+        if isinstance(node, ast.Name) and node.id in env:
+            return env[node.id]
+        if isinstance(node, ast.BinOp) and isinstance(node.op, ast.Add):
+            a, b = self.ev(node.left, env), self.ev(node.right, env)
+            if isinstance(a, int) and isinstance(b, int):
+                return a + b
+        self.bad(node, "cannot evaluate " + ast.unparse(node))
+
+    def visit(self, node, env, out):
+        """visit in evaluation (source) order."""
+        if isinstance(node, ast.Call):
+            fn = ast.unparse(node.func)
+            if fn == "read":
+                ty = self.ev(node.args[1], env)
+                out.append(("slot", ty, self.ev(node.args[2], env)))
+                return
+            if fn in ("read_map", "read_seq"):
+                if len(node.args) != 2:
+                    self.bad(node, fn + " with a length argument")
+                out.append((fn[5:], self.ev(node.args[1], env)))
+                return
+            if fn == "_read_tables":
+                out.append(("tables", self.ev(node.args[1], env)))
+                self.tables_layout()
+                return
+            if fn in self.funcs and fn.startswith("_read"):
+                f = self.funcs[fn]
+                params = [a.arg for a in f.args.args]
+                defaults = dict(zip(params[len(params) - len(f.args.defaults):], [self.ev(d, {}) for d in f.args.defaults]))
+                env2 = dict(defaults)
+                for pname, a in zip(params[1:], node.args[1:]):
+                    env2[pname] = self.ev(a, env)
+                for kw in node.keywords:
+                    env2[kw.arg] = self.ev(kw.value, env)
+                self.body(f, env2, out)
+                return
+            for a in node.args:
+                self.visit(a, env, out)
+            for kw in node.keywords:
+                self.visit(kw.value, env, out)
+            return
+        if isinstance(node, ast.IfExp):
+            t = self.ev(node.test, env)
+            self.visit(node.body if t else node.orelse, env, out)
+            return
+        if isinstance(node, ast.Dict):
+            for v in node.values:
+                self.visit(v, env, out)
+            return
+        if isinstance(node, (ast.ListComp, ast.For, ast.While, ast.If, ast.Try)):
+            self.bad(node, "control flow inside a read_* function")
+        for child in ast.iter_child_nodes(node):
+            self.visit(child, env, out)
+
+    def body(self, f, env, out):
+        for st in f.body:
+            if isinstance(st, ast.Expr) and isinstance(st.value, ast.Constant):
+                continue
+            self.visit(st, env, out)
+
+    def tables_layout(self):
+        f = self.funcs["_read_tables"]
+        src = ast.unparse(f)
+        m = re.search(r"tb_segs\[i:i \+ (\d+)\] for i in range\(0, len\(tb_segs\), (\d+)\)", src)
+        m2 = re.search(r"\[_read_table\(table, 0\) for table in tb_chunks\]", src)
+        if not m or m.group(1) != m.group(2) or not m2 or "tb_segs = data[offset:]" not in src:
+            raise Unsupported("_read_tables shape changed")
+        self.chunk = int(m.group(1))
+        out = []
+        self.body(self.funcs["_read_table"], {"offset": 0, "with_selector": True}, out)
+        self.table = out
+
+
+def gen_layouts():
+    out = HEADER % "data_protocol.py / metadata_protocol.py (the typed reads of every read_* function, in evaluation order)"
+    out += "namespace Ari.Gen\n\n"
+    rows = []
+    table, chunk = None, None
+    for rel in ("data_protocol.py", "metadata_protocol.py"):
+        tree, path = parse(rel)
+        L = _Layout(tree, path)
+        for fn in tree.body:
+            if not isinstance(fn, ast.FunctionDef) or not fn.decorator_list:
+                continue
+            d = fn.decorator_list[0]
+            if not (isinstance(d, ast.Call) and ast.unparse(d.func) == "remoting_exception_on_parse"):
+                continue
+            m = re.fullmatch(r"Method\.([A-Z0-9]{3})", ast.unparse(d.args[0]))
+            if not m:
+                raise Unsupported("%s: decorator argument %s" % (fn.name, ast.unparse(d.args[0])))
+            got = []
+            L.body(fn, {}, got)
+            slots = [(t, o) for k, t, o in [g for g in got if g[0] == "slot"]]
+            tails = [g for g in got if g[0] != "slot"]
+            if len(tails) > 1 or (tails and got[-1][0] == "slot"):
+                raise Unsupported("%s: a variable-length part that is not last" % fn.name)
+            rows.append((m.group(1), slots, tails[0] if tails else None))
+        if L.table is not None:
+            table, chunk = L.table, L.chunk
+    if table is None:
+        raise Unsupported("table layout not found")
+    out += "/-- per request method: the typed reads (type marker, token offset) in evaluation order, then the variable part. -/\n"
+    out += "def layouts : List (String × List (Char × Nat) × Option (String × Nat)) :=\n [" + ",\n  ".join(
+        "(%s, [%s], %s)" % (lean_str(m), ", ".join("('%s', %d)" % (t, o) for t, o in slots),
+                            "none" if tail is None else "some (%s, %d)" % (lean_str(tail[0]), tail[1])) for m, slots, tail in rows) + "]\n\n"
+    out += "/-- `_read_table(chunk, 0)`: the typed reads of one table descriptor. -/\n"
+    out += "def tableLayout : List (Char × Nat) :=\n [" + ", ".join("('%s', %d)" % (t, o) for k, t, o in table) + "]\n\n"
+    out += "/-- `_read_tables`: tokens per table descriptor. -/\ndef tableChunk : Nat := %d\n\nend Ari.Gen\n" % chunk
+    return out
+
+
+TARGETS.append(("Layouts", gen_layouts))
+
+
 if __name__ == "__main__":
     import json
     print(json.dumps(regenerate(), indent=1))
